@@ -168,10 +168,13 @@ class Exploration:
         t1 = time.time()
         for a in e.assumes: S.add(a)
         for a in name.defs: S.add(a)
+        UA = gz(e.uassume)
         lits = {}
         for i, q in enumerate(qs):
             c = q['cond']
+            if c is True and q['name'] not in ('violation', 'engine-limit') and not isinstance(UA, bool) and not z3.is_true(UA): c = q['cond'] = UA
             if isinstance(c, bool): continue
+            if q['name'] not in ('violation', 'engine-limit'): c = z3.And(c, UA)     # checks already carry their assumption prefix
             b = z3.Bool('query!%d' % i); S.add(b == c); lits[q['name']] = b
         order = sorted(qs, key=lambda q: 0 if q['expect'] == 'sat' else 1)
         deadline = time.time() + timeout_s
